@@ -203,6 +203,11 @@ def _dump_time_forms(t, local_tod):
         out += ["hhmm_fc_basic", "hhmm_fp_ext", "hhmm_fc_ext"]
     if t[0] in ("hmsf",) or (t[0] == "hms" and t[1] != 24):
         out += ["hhmmss_fc_basic", "hhmmss_fc_ext", "hhmmss_fp_ext"]
+    # decimal forms on a coarser unit than the point's own, when the local time has few enough decimals there
+    if t[0] != "hf" and local_tod % 3600 != 0 and (local_tod / 3600 * 10 ** 6).denominator == 1:
+        out += ["hh_fc", "hh_fp"]
+    if t[0] in ("hms", "hmsf") and local_tod % 60 != 0 and (local_tod / 60 * 10 ** 6).denominator == 1:
+        out += ["hhmm_fc_ext", "hhmm_fp_basic"]
     return [(n, tf[n]) for n in out]
 
 
